@@ -70,7 +70,7 @@ def main(ctx, replay=None):
                 ctx.violation(f"c_{args} accepted as {_r(got)}; the index algebra rejects it", {**case, "got": _r(got)}, sig)
             continue
         if exc is not None:
-            ctx.violation(f"c_{args} raised {exc!r}; expected key {row['voigt']}", {**case, "exc": repr(exc)}, sig)
+            ctx.violation(f"c_{args} raised {_r(exc)}; expected key {row['voigt']}", {**case, "exc": _r(exc)}, sig)
             continue
         exp_calc = getattr(CT, row["calc"])
         try:
@@ -78,7 +78,7 @@ def main(ctx, replay=None):
                    "mult": got.multiplicity, "calc": got.calc_type.name if got.calc_type else None,
                    "long": bool(got.is_longitudinal), "offd": bool(got.is_off_diagonal), "shear": bool(got.is_shear)}
         except Exception as ex:
-            ctx.violation(f"c_{args}: reading the views of the accepted key raised {ex!r}", case, sig)
+            ctx.violation(f"c_{args}: reading the views of the accepted key raised {_r(ex)}", case, sig)
             continue
         exp = {"voigt": row["voigt"], "v": row["voigt"], "standard": row["standard"], "s": row["standard"],
                "mult": row["mult"], "calc": exp_calc.name, "long": row["long"], "offd": row["offd"], "shear": row["shear"]}
@@ -124,12 +124,12 @@ def main(ctx, replay=None):
                 ctx.violation(f"e_{args} accepted as {_r(got)}; must be rejected", {**case, "got": _r(got)}, sig)
             continue
         if exc is not None:
-            ctx.violation(f"e_{args} raised {exc!r}; expected Voigt index {row['voigt']}", {**case, "exc": repr(exc)}, sig)
+            ctx.violation(f"e_{args} raised {_r(exc)}; expected Voigt index {row['voigt']}", {**case, "exc": _r(exc)}, sig)
             continue
         try:
             obs = {"voigt": got.voigt, "v": got.v, "standard": list(got.standard), "s": list(got.s)}
         except Exception as ex:
-            ctx.violation(f"e_{args}: reading the views of the accepted key raised {ex!r}", case, sig)
+            ctx.violation(f"e_{args}: reading the views of the accepted key raised {_r(ex)}", case, sig)
             continue
         exp = {"voigt": row["voigt"], "v": row["voigt"], "standard": row["standard"], "s": row["standard"]}
         if obs != exp:
